@@ -77,7 +77,7 @@ def parseSeq (s : String) : Option Seq :=
 
 def parseSeqs (s : String) : Option (List Seq) := (s.splitOn ";").mapM parseSeq
 
-partial def showObj : Obj → String
+def showObj : Obj → String
   | .nil => "n"
   | .t => "t"
   | .int i => s!"i{i}"
